@@ -9,6 +9,7 @@ def register(reg):
     register_config(reg)
     register_create(reg)
     register_magnet(reg)
+    register_rename(reg)
     C = reg.contract
     L = "loaded(args.metafile)"
     flag = {"url-list": "url_list", "httpseeds": "httpseeds", "announce": "announce", "source": "source", "comment": "comment"}
@@ -169,3 +170,32 @@ def register_magnet(reg):
           ("C11", "requested_version_passed_on", "version == int_value(caller_namespace.meta_version) and metafile == caller_namespace.metafile")]},
       requires=["ascii_decimal(namespace.meta_version) and 0 <= int_value(namespace.meta_version) <= 3", "fs_isfile(namespace.metafile)"],
       raises={"BaseException": {}})
+
+
+def register_rename(reg):
+    C = reg.contract
+    L = "loaded(args.target)"
+    NEW = f"pathjoin(dirname(args.target), as_str({L}['info']['name']) + '.torrent')"
+    C("torrentfile.commands.rename",
+      props=["C18"],
+      params={"args": {"cls": "argparse.Namespace", "fields": {"target": "any"}}},
+      ghost={"q": "str"},
+      requires=["is_none(args.target) or is_str(args.target)",
+                ("env", f"implies(fs_isfile(args.target), is_dict({L}) and ('info' in {L}) and is_dict({L}['info']) and "
+                        f"('name' in {L}['info']) and is_str({L}['info']['name']))")],
+      returns="str",
+      fs_modifies=[f"_path == {NEW}"],
+      fs_props=["C18"],
+      ensures=[
+          ("C18", "new_name_is_parent_slash_name_dot_torrent", f"result == {NEW}"),
+          ("C18", "never_replaces_an_existing_file", "not fs_exists0(result)"),
+          ("C18", "bytes_unchanged", "fs_isfile(result) and fs_data(result) == fs_data0(args.target)"),
+          ("C18", "old_name_is_gone", "not fs_exists(args.target)"),
+          ("C18", "nothing_else_changes", "implies(q != as_str(args.target) and q != result, fs_same(q))"),
+      ],
+      raises={"FileNotFoundError": {"ensures": [("C18", "nothing_changes_on_error", "fs_same(q)")]},
+              "FileExistsError": {"ensures": [("C18", "nothing_changes_on_refusal", "fs_same(q)")]},
+              "IsADirectoryError": {"ensures": [("C18", "nothing_changes_on_error", "fs_same(q)")]},
+              "pyben.exceptions.FilePathError": {"ensures": [("C18", "nothing_changes_on_error", "fs_same(q)")]},
+              "pyben.exceptions.DecodeError": {"ensures": [("C18", "nothing_changes_on_error", "fs_same(q)")]}},
+      raises_props=["C18"])
